@@ -431,6 +431,28 @@ func allocIsParam(a *ssa.Alloc) bool {
 // FreeVar matches a captured variable (or a load of it) by name.
 func FreeVar(name string) VPat {
 	return func(v ssa.Value) bool {
+		// look at the value before cells are resolved through the closure binding
+		for w := v; w != nil; {
+			switch x := w.(type) {
+			case *ssa.FreeVar:
+				return x.Name() == name
+			case *ssa.UnOp:
+				if fv, ok := x.X.(*ssa.FreeVar); ok && x.Op == token.MUL {
+					return fv.Name() == name
+				}
+				w = nil
+			case *ssa.ChangeType:
+				w = x.X
+			case *ssa.Convert:
+				w = x.X
+			case *ssa.ChangeInterface:
+				w = x.X
+			case *ssa.MakeInterface:
+				w = x.X
+			default:
+				w = nil
+			}
+		}
 		v = strip(v)
 		if fv, ok := v.(*ssa.FreeVar); ok {
 			return fv.Name() == name
